@@ -72,6 +72,12 @@ attributes to the matching parameters and labels the returned planes with the pu
 theorem gen_recognisers : fpmMaskIsPlainProduct = true ∧ fpmReturnMoreIsBackAtAfter = true ∧ fpmWavefrontMaskSameLegs = true ∧
     wavefrontFpmWrapperPassesThrough = true ∧ babinetIsFieldMinusReturnOfComplement = true := by decide
 
+/-- no in-place operation on a caller-owned array-like argument (field, mask, Lyot stop, shift, sample counts) or on a name
+that may alias one, in `to_fpm_and_back`, its `Wavefront` method, `babinet` and the two legs (AST scan, re-done every run) -/
+theorem gen_no_inplace_on_arguments :
+    fpmNoInPlaceOnArguments = true ∧ fpmWrapNoInPlaceOnArguments = true ∧ babinetNoInPlaceOnArguments = true ∧
+    ffsNoInPlaceOnArguments = true ∧ ufsNoInPlaceOnArguments = true := by decide
+
 /-- the per-axis `Q` of both free functions as re-read by THIS check (each axis from its own sample count) -/
 theorem gen_fixed_Q (s0 s1 M0 M1 dx z lam dxo sh0 sh1 : K) :
     ffsQ0 s0 s1 M0 M1 dx z lam dxo sh0 sh1 = Model.C03.axisQ s0 dx z lam dxo ∧
